@@ -47,8 +47,8 @@ let () =
        | ["api"] -> print_endline (String.concat " " (List.map ocaml_string M.public_api))
        | ["affix_guarded"] -> print_endline (if M.gen_affix_guarded then "1" else "0")
        | "exec" :: rw :: p0 :: p1 :: rest ->
-         let s = { M.rw = (rw = "1"); M.prots = [prot_of_int (int_of_string p0); prot_of_int (int_of_string p1); prot_of_int (int_of_string p0); prot_of_int 1];
-                   M.meta = [M.O; M.O; M.O; M.O]; M.data = [M.O; M.O; M.O; M.O] } in
+         let s = { M.rw = (rw = "1"); M.prots = [prot_of_int (int_of_string p0); prot_of_int (int_of_string p1); prot_of_int (int_of_string p0); prot_of_int 0; prot_of_int 1];
+                   M.meta = [M.O; M.O; M.O; M.O; M.O]; M.data = [M.O; M.O; M.O; M.O; M.O] } in
          let n k = nat_of_int (int_of_string k) in
          let c = (match rest with
            | ["put"; w; frags; leaf] -> M.CPutData (field_of w frags leaf)
